@@ -104,6 +104,13 @@ def shrink_devs_case(case, fails, keep_first_command=True):
     # 5. single non-scheduling actions
     def all_lists(p):
         return [("roots", None)] + [("events", e) for e in sorted(p["events"], key=int)]
+    if prog.get("initial"):
+        p2 = copy.deepcopy(prog)
+        moved = p2.pop("initial")
+        p2["roots"] = p2["roots"] + moved
+        if fails(_with(case, program=p2)):
+            prog = p2
+            case["program"] = prog
     for where, eid in all_lists(prog):
         al = prog["roots"] if eid is None else prog["events"][eid]
         i = len(al) - 1
